@@ -43,7 +43,10 @@ Definition t_eth_sender (T : tabs) (i : Z) : option addr := find_eth (tb_eth T) 
 Record obs := mkObs { o_pub : option pkey; o_seq : Z; o_num : Z; o_bal : Z }.
 Definition ostate := list (addr * obs).
 (* class: 0 accepted (code 0), 1 rejected, 2 rejected by a recovered panic, 3 panic escaped DeliverTx *)
-Record stepobs := mkStep { so_tx : tx; so_signers : list addr; so_class : Z; so_post : ostate }.
+(* so_envrej: the chain's mode filters (weak network: only small bond-denom sends and listed governance
+   messages) reject this transaction -- computed by the harness from the documented rule; the model of the
+   authentication steps does not contain those filters *)
+Record stepobs := mkStep { so_tx : tx; so_signers : list addr; so_class : Z; so_post : ostate; so_envrej : bool }.
 (* h_check: class of CheckTx on the first transaction, run on the committed state (= h_init); -1 when not run *)
 (* h_check_tx: the transaction given to CheckTx when it differs from the first delivered one *)
 Record c02_case := mkHist { h_genesis : bool; h_tabs : tabs; h_check : Z; h_check_tx : option tx; h_init : ostate; h_steps : list stepobs }.
@@ -67,22 +70,28 @@ Definition class_of (r : outcome state) : Z := match r with Ok _ => 0 | Err _ =>
 
 Section Variant.
 Variable v : variant.
+(* class when a mode filter rejects: the message validation of baseapp (before the ante chain) may panic first *)
+Definition envrej_class (T : tabs) (t : tx) : Z :=
+  match validate_basic (t_eth_sender T) t with Panic _ => 2 | _ => 1 end.
 Fixpoint steps_match (T : tabs) (c : ctxt) (s : state) (l : list stepobs) : bool :=
   match l with
   | [] => true
   | o :: r =>
       let res := ante (t_verify T) (t_recover T) (t_addr_of_pk T) (t_eth_sender T) v c s (so_tx o) in
-      let s' := match res with Ok s' => s' | _ => s end in
+      let s' := if so_envrej o then s else match res with Ok s' => s' | _ => s end in
       list_eqb Z.eqb (signers (so_tx o)) (so_signers o)
-      && (class_of res =? so_class o)
+      && ((if so_envrej o then envrej_class T (so_tx o) else class_of res) =? so_class o)
       && list_eqb acc_matches s' (so_post o)
       && steps_match T c s' r
   end.
+Definition first_envrej (h : c02_case) : bool := match h_steps h with o :: _ => so_envrej o | [] => false end.
 Definition check_matches (h : c02_case) : bool :=
   match check_tx_of h with
-  | Some t => (h_check h <? 0) ||
-      (class_of (ante (t_verify (h_tabs h)) (t_recover (h_tabs h)) (t_addr_of_pk (h_tabs h)) (t_eth_sender (h_tabs h)) v
-                      (mkCtx 0 (h_genesis h)) (state_of (h_init h)) t) =? h_check h)
+  | Some t =>
+      (h_check h <? 0) ||
+      (if first_envrej h then envrej_class (h_tabs h) t =? h_check h
+       else class_of (ante (t_verify (h_tabs h)) (t_recover (h_tabs h)) (t_addr_of_pk (h_tabs h)) (t_eth_sender (h_tabs h)) v
+                           (mkCtx 0 (h_genesis h)) (state_of (h_init h)) t) =? h_check h)
   | None => true
   end.
 Definition case_matches (h : c02_case) : bool :=
